@@ -363,6 +363,16 @@ func (m *monC07) Event(ev *hermes.VerifEvent, rc *RunCtx) {
 				if math.Abs(dPes-exp) > tolFor(g.PESUM, exp) {
 					rc.Violate("C07", "crop_n_credit_mismatch", fmt.Sprintf("crop N changed by %.17g on the first sub-step, expected uptake %.17g + fixation %.17g", dPes, sumPE, exp-sumPE), ev.Zeit, 0, nil)
 				}
+				// independent of the hand-over variable: what is credited as fixation today is what the cumulative fixation gained today
+				fixToday := g.NFIXSUM - m.nfixPW
+				if math.Abs((dPes-sumPE)-fixToday) > tolFor(g.PESUM, fixToday) {
+					rc.Violate("C07", "fixation_credit_ne_fixation", fmt.Sprintf("crop N was credited %.17g kg N/ha beyond the uptake of the layers, the cumulative fixation gained %.17g today (legume=%v)", dPes-sumPE, fixToday, g.LEGUM), ev.Zeit, 0, map[string]float64{"credited": dPes - sumPE, "fixed": fixToday})
+				}
+				if fixToday > 0 {
+					rc.Cov("days_with_fixation", 1)
+				} else if g.SAAT[a] > 0 && !g.LEGUM {
+					rc.Cov("non_legume_crop_days", 1)
+				}
 			}
 		} else {
 			m.multi = true
